@@ -355,7 +355,13 @@ class Quantity(GenericQuantity):
         UnitsError
             If `units` are incompatible with the units of this quantity.
         """
-        return '%g %s' % (self.in_units(units), units)
+        number = '%g' % self.in_units(units)
+        if 'e' in number:
+            # The units parser does not read exponent notation: write the
+            # same six significant digits positionally.
+            from decimal import Decimal
+            number = format(Decimal(number), 'f')
+        return '%s %s' % (number, units)
 
 
 class ArrayQuantity(GenericQuantity, np.ndarray):
